@@ -145,6 +145,53 @@ char *strcpy(char *dst, const char *src)
 }
 #endif
 
+/* Searching functions (libjwt itself uses none of them; a change may): the model does not search -- "found at SOME position
+ * holding the character" or "not found" are both possible, which over-approximates every outcome.  Loop-free, so a unit
+ * whose function starts calling them is still decided instead of timing out in cbmc's built-in loops. */
+_Bool nondet_bool(void);
+char *strchr(const char *s, int c)
+{
+	size_t n = strlen(s);
+	if ((char)c == 0)
+		return (char *)s + n;
+	if (nondet_bool())
+		return NULL;
+	size_t k = nondet_size_t();
+	__CPROVER_assume(k < n && s[k] == (char)c);
+	return (char *)s + k;
+}
+char *strrchr(const char *s, int c)
+{
+	size_t n = strlen(s);
+	if ((char)c == 0)
+		return (char *)s + n;
+	if (nondet_bool())
+		return NULL;
+	size_t k = nondet_size_t();
+	__CPROVER_assume(k < n && s[k] == (char)c);
+	return (char *)s + k;
+}
+char *strstr(const char *hay, const char *needle)
+{
+	size_t n = strlen(hay);
+	(void)strlen(needle);
+	if (nondet_bool())
+		return NULL;
+	size_t k = nondet_size_t();
+	__CPROVER_assume(k <= n);
+	return (char *)hay + k;
+}
+char *strpbrk(const char *s, const char *accept)
+{
+	size_t n = strlen(s);
+	(void)strlen(accept);
+	if (nondet_bool())
+		return NULL;
+	size_t k = nondet_size_t();
+	__CPROVER_assume(k < n);
+	return (char *)s + k;
+}
+
 /* strcmp: the call whose FIRST argument is g_strcmp_watch is recorded in ghost
  * state (which strings were compared and what the answer was), so that
  * postconditions can say "the verdict is strcmp()==0 on exactly these two". */
